@@ -73,6 +73,21 @@ def main(argv):
         for i in smism[:3]:
             v.violation('compile-time operator result differs from the documented machine semantics',
                         {'class': 'c11-spec', 'kind': 'BIN', 'case': opcases[i]})
+        probe_found = False
+        for i in mism[:5]:
+            if kinds[i] in ('SIMP', 'EVAL') and texts[i]:
+                # search: the mismatching program on 200 boundary register valuations through AstVm before/after
+                os.makedirs(os.path.join(WORK, 'C11'), exist_ok=True)
+                pp = os.path.join(WORK, 'C11', 'probe%d.spec' % i)
+                open(pp, 'w').write(texts[i].replace('; ', ';\n'))
+                rc, out = sh([harness_bin('c11'), 'probe', pp], timeout=300, env={'VERIF_SEED': str(seed)})
+                for l in out.splitlines():
+                    if l.startswith('ORACLE-FAIL'):
+                        parts = l.split('\t')
+                        probe_found = True
+                        v.violation('implementation-level oracle (probe): ' + parts[1][:300],
+                                    {'class': 'c11-oracle:probe', 'source_text': texts[i].replace('; ', ';\n'), 'detail': parts[1:]})
+                        break
         for i in mism[:5]:
             # the case is the candidate failing input; SIMP/EVAL cases were already through the AstVm oracle,
             # operator cases through the spec oracle. If neither fired, the model no longer describes the code.
@@ -80,7 +95,7 @@ def main(argv):
                         {'class': 'c11-corr:' + kinds[i], 'kind': kinds[i], 'case': cases[i], 'source': texts[i],
                          'source_text': texts[i].replace('; ', ';\n') if kinds[i] in ('SIMP', 'EVAL') else None,
                          'broken': 'correspondence Corr.C11.model_of'},
-                        no_failing_input=(not oracle_fail and not smism))
+                        no_failing_input=(not oracle_fail and not smism and not probe_found))
     if (not proofs_ok or not v.corr_ok) and not v.violations:
         v.violation('proof obligation does not check: %s' % json.dumps(v.coq_error)[:400],
                     {'class': 'c11-proof', 'broken': v.coq_error}, no_failing_input=True)
